@@ -47,6 +47,7 @@ class Gen:
         self.nrt_only = nrt_only
         self.features = set(features)   # 'tempo', 'cond', 'flow', 'send', 'rand', 'call'
         self.next_id = 0
+        self.cond_heavy = False
         self.nconds = 0
         self.nflows = 0
         self.budget = 0
@@ -96,6 +97,8 @@ class Gen:
                 break
             self.budget -= 1
             x = rng.random()
+            if self.cond_heavy and not free and rng.random() < 0.3:
+                x = 0.87 if rng.random() < 0.75 else 0.93
             if x < 0.45:
                 body.append(['y', self.delta()])
             elif x < 0.58 and depth < 3:
@@ -157,10 +160,26 @@ class Gen:
         sig = {'id': self.next_id, 'clock': SYS if self.rt_safe or rng.random() < 0.6
                else self.clock_index(), 'free': True, 'seed': None, 'body': []}
         self.next_id += 1
-        items = [['sig', c] for c in conds] + [['fset', f, 1000 + f] for f in flows]
+        external = []
+        if 'condx' in self.features and self.rt_safe and not self.nrt_only:
+            external = [c for c in conds if rng.random() < 0.3]
+            prog['external_conds'] = external
+        items = [['sig', c] for c in conds if c not in external] \
+            + [['fset', f, 1000 + f] for f in flows]
         rng.shuffle(items)
         for it in items:
             sig['body'].append(['y', self.delta()])
+            if 'condx' in self.features and it[0] == 'sig':
+                # a signal while the test is still false releases nobody;
+                # unhang releases whoever is waiting whatever the test says
+                if rng.random() < 0.4:
+                    sig['body'].append(['sig0', it[1]])
+                    sig['body'].append(['y', self.delta()])
+                if rng.random() < 0.3:
+                    sig['body'].append(['unhang', it[1]])
+                    sig['body'].append(['y', self.delta()])
+            if 'condx' in self.features and it[0] == 'fset' and rng.random() < 0.2:
+                sig['body'].append(it)          # rebind is refused (logged)
             sig['body'].append(it)
             if it[0] == 'sig' and rng.random() < 0.3:
                 sig['body'].append(['y', self.delta()])
@@ -218,6 +237,7 @@ class Run:
         self.addr = NetAddr('127.0.0.1', 57110)
         self.max_late = 0.0
         self.n_res = 0
+        self.kinds = {}
 
     # ---- helpers ------------------------------------------------------
     def clock(self, ci):
@@ -287,7 +307,12 @@ class Run:
         self.routines[R['id']] = rout
         self.live += 1
         if R['clock'] >= 0:
-            rout.play(clock, 0)                 # quant 0: no quantisation
+            if R['id'] % 2:
+                clock.sched(0, rout)            # relative to the current logical beat
+            else:
+                rout.play(clock, 0)             # quant 0: no quantisation
+        elif R['id'] % 3 == 0:
+            clock.sched(0, rout)
         else:
             rout.play(clock)
         return rout
@@ -319,8 +344,17 @@ class Run:
         k = st['k']
         st['k'] = k + 1
         self.n_res += 1
+        kk = (what, 'tempo' if st['ci'] >= 0 else 'sys' if st['ci'] == SYS else 'app')
+        self.kinds[kk] = self.kinds.get(kk, 0) + 1
         beats = None
-        if st['ci'] >= 0:
+        if st.pop('resync', False):
+            # released from outside a routine: the release time is physical
+            if st['ci'] >= 0:
+                st['exp_beats'] = clock.beats
+                beats = st['exp_beats']
+            else:
+                st['exp_secs'] = obs_secs
+        elif st['ci'] >= 0:
             beats = clock.beats
             eb = st['exp_beats']
             exp_secs = clock.beats2secs(eb)
@@ -350,11 +384,24 @@ class Run:
             st['exp_secs'] = st['exp_secs'] + d
 
     def set_to_signal_time(self, st, sig):
+        if sig is None:
+            st['resync'] = True
+            return
         secs, beats = sig
         if st['ci'] >= 0:
             st['exp_beats'] = beats[st['ci']]
         else:
             st['exp_secs'] = secs
+
+    def release_from_outside(self, c, final=False):
+        """Condition released by a plain thread (RT): flag + signal."""
+        with self.main._main_lock:
+            if final and self.flags.get(c):
+                return
+            self.flags[c] = True
+            self.sig.setdefault(c, []).append(None)
+            self.log.append(('sig', 'outside', c, None))
+            self.conds[c].signal()
 
     def snapshot(self):
         return (self.now_secs(), [c.beats for c in self.clocks])
@@ -391,6 +438,7 @@ class Run:
                 c = s[1]
                 hung = not self.flags[c]
                 nsig = len(self.sig.setdefault(c, []))
+                self.log.append(('wbegin', st['rid'], 'c', c, hung))
                 yield from self.conds[c].wait()
                 if hung:
                     # released by the first signal issued after the wait began
@@ -402,10 +450,21 @@ class Run:
                 self.sig.setdefault(c, []).append(self.snapshot())
                 self.conds[c].signal()
                 self.log.append(('sig', st['rid'], c, self.now_secs() - self.T0))
+            elif op == 'sig0':
+                c = s[1]
+                if not self.flags[c]:
+                    self.conds[c].signal()      # test is false: must release nobody
+                    self.log.append(('sig0', st['rid'], c))
+            elif op == 'unhang':
+                c = s[1]
+                self.sig.setdefault(c, []).append(self.snapshot())
+                self.conds[c].unhang()
+                self.log.append(('unhang', st['rid'], c, self.now_secs() - self.T0))
             elif op == 'fget':
                 f = s[1]
                 fv = self.flows[f]
                 hung = f not in self.fsig
+                self.log.append(('wbegin', st['rid'], 'f', f, hung))
                 v = yield from fv.value
                 if hung:
                     self.set_to_signal_time(st, self.fsig[f])
@@ -413,9 +472,16 @@ class Run:
                 self.log.append(('fval', st['rid'], f, v))
             elif op == 'fset':
                 f = s[1]
-                self.fsig[f] = self.snapshot()
-                self.flows[f].value = s[2]
-                self.log.append(('fset', st['rid'], f, self.now_secs() - self.T0))
+                if f in self.fsig:
+                    try:
+                        self.flows[f].value = s[2]
+                        self.log.append(('rebind-accepted', st['rid'], f))
+                    except Exception as e:
+                        self.log.append(('rebind-refused', st['rid'], f))
+                else:
+                    self.fsig[f] = self.snapshot()
+                    self.flows[f].value = s[2]
+                    self.log.append(('fset', st['rid'], f, self.now_secs() - self.T0))
             elif op == 'call':
                 inner, n = s[1], s[2]
                 vals = []
